@@ -303,10 +303,19 @@ func RunUciScript(sc *Scenario) *UciRunOut {
 					ok = true
 					break
 				}
-				if sim.Now()-start > max*1_000_000 || simExhausted(sim) {
+				waited := sim.Now() - start
+				if waited > max*1_000_000 || simExhausted(sim) {
 					break
 				}
-				sim.ActorSleep(offGUI, poll*1000)
+				// adaptive polling: reaction latency at most 0.5% of the time waited
+				step := waited / 200
+				if step < poll*1000 {
+					step = poll * 1000
+				}
+				if step > 2_000_000 {
+					step = 2_000_000
+				}
+				sim.ActorSleep(offGUI, step)
 			}
 			out.Waits = append(out.Waits, WaitOutcome{Step: i, Op: st.Op, Ok: ok, WaitedNs: sim.Now() - start})
 			if st.Op == "wait_best" && !ok {
